@@ -309,6 +309,23 @@ static void check_rot(const Rot& r) {
 		if (!within("RotMatToVec.angle", std::fabs(vl - eff), ROTVEC_ABS)) viol(std::string("RotMatToVec:angle:angle=") + ANGLE_LABEL[r.ang], where + vf::strf(": |RotMatToVec(R)| = %.9g, expected %.9g", vl, eff));
 	}
 	else st.add("round_trips_not_required_at_or_beyond_half_turn");
+	// M = f * R for uniform factors at the ends of the scale range: well-conditioned (condition number 1) although the
+	// determinant f^3 is tiny or huge
+	for (float f : {0.01f, 0.04f, 0.1f, 30.0f, 100.0f}) {
+		Matrix3 D(f, 0, 0, 0, f, 0, 0, 0, f);
+		Matrix3 M = r.m * D, Mi;
+		const std::string mw = where + vf::strf(", M = %g * R", f);
+		st.add("identities_checked", 2);
+		st.add("matrices_inverted");
+		if (!M.Invert(&Mi)) { viol("Matrix3::Invert:reports-singular", mw); continue; }
+		double a[3][3], b[3][3];
+		to_d3(M, a);
+		to_d3(Mi, b);
+		std::string why;
+		if (!product_is_identity<3>("Matrix3.invert", a, b, why)) viol("Matrix3::Invert:product-not-identity", mw + ": M * M^-1: " + why);
+		else if (!product_is_identity<3>("Matrix3.invert", b, a, why)) viol("Matrix3::Invert:product-not-identity", mw + ": M^-1 * M: " + why);
+		if (!within("Matrix3.inverse", max_entry_diff(M.Inverse(), Mi), 0)) viol("Matrix3::Inverse:differs-from-Invert", mw);
+	}
 	// M = R * diag(sx, sy, sz): Matrix3::Invert, and Matrix4::Inverse of [M | t]
 	for (int sx = 0; sx < 3; sx++)
 		for (int sy = 0; sy < 3; sy++)
